@@ -171,6 +171,16 @@ CHECKS = {
         technique="deterministic simulation: seeded lock-step differential histories with inner-store fault injection",
         design_ref="DESIGN.md 6, 7 (C12)",
     ),
+    "C19": dict(
+        engine="K",
+        category="exploration",
+        text=("Seeded keep / load / re-keep / re-configuration histories through the public API on the DBFS store over an "
+              "in-process fake of dbutils.fs for every documented commit-type spelling and value type, checking the files "
+              "left under the data directory, returned values and loads; plus blobs pre-seeded with legacy codec references."),
+        note="Trusts: the fake dbutils (subset cp/head/put/rm; fidelity to Databricks not checked). Spark codecs not exercised.",
+        technique="deterministic simulation: seeded API histories against an in-process fake of the remote file system with a model of expected files",
+        design_ref="DESIGN.md 6, 7 (C19)",
+    ),
 }
 
 NOT_APPLICABLE = {
